@@ -137,6 +137,12 @@ func discharge(fr *FuncResult, workdir string, perOblS int, sem chan struct{}, t
 				o.Model = model
 			default:
 				o.Status = "undecided"
+				// candidate counterexample: drop the quantified hypotheses; a model of
+				// the rest is not a proof of failure but shows where to look
+				if m := candidate(fr, o, base, sem); m != "" {
+					o.Model = m
+					o.Detail = "candidate counterexample (quantified hypotheses dropped)"
+				}
 			}
 		}(o)
 	}
@@ -227,4 +233,32 @@ func raceRegion(fr *FuncResult, o *Obligation, base string, perOblS int, sem cha
 		o.Status = "undecided"
 		o.Detail = "outside-region query undecided"
 	}
+}
+
+func candidate(fr *FuncResult, o *Obligation, base string, sem chan struct{}) string {
+	script := fr.Em.standalone(o, "", true)
+	var b strings.Builder
+	for _, ln := range strings.Split(script, "\n") {
+		if strings.Contains(ln, "(forall ") || strings.Contains(ln, "(exists ") {
+			if strings.HasPrefix(ln, "(assert (not ") {
+				return "" // the goal itself is quantified
+			}
+			continue
+		}
+		b.WriteString(ln)
+		b.WriteByte('\n')
+	}
+	file := fmt.Sprintf("%s.cand%p.smt2", base, o)
+	os.WriteFile(file, []byte(b.String()), 0o644)
+	sem <- struct{}{}
+	ctx, cancel := context.WithTimeout(context.Background(), 8*time.Second)
+	out, _ := runSolver(ctx, []string{"z3-new", "-T:6"}, file)
+	cancel()
+	<-sem
+	if strings.HasPrefix(strings.TrimSpace(out), "sat") {
+		if j := strings.Index(out, "\n"); j >= 0 {
+			return strings.TrimSpace(out[j+1:])
+		}
+	}
+	return ""
 }
